@@ -256,6 +256,34 @@ func genCase(t *rapid.T) *Case {
 	}
 	g := &genState{c: c}
 	n := 3 + sim.Uniform(t, 10, "nOps")
+	// a pod that an earlier, abandoned bind attempt left behind: unbound, still labelled with its group (the
+	// rollback could not remove the label), request terminally failed and dropped by the scheduler; the scheduler now
+	// places it again - usually into a group of another node
+	if nGroups > 1 && sim.Chance(t, 35, "abandonedPod") {
+		from := sim.Uniform(t, nGroups, "abandonedGroup")
+		pod := len(g.pods)
+		g.pods = append(g.pods, genPod{ns: "ws", groups: []string{c.Groups[from].Name}})
+		c.Ops = append(c.Ops, Op{Type: "abandoned", Pod: pod, NS: "ws", Groups: []string{c.Groups[from].Name}})
+		if sim.Chance(t, 40, "bindFirst") {
+			c.Ops = append(c.Ops, g.genBind(t, ""))
+		}
+		var other, same []string
+		for i, d := range c.Groups {
+			if i == from {
+				continue
+			}
+			if d.Node != c.Groups[from].Node {
+				other = append(other, d.Name)
+			} else {
+				same = append(same, d.Name)
+			}
+		}
+		cand := append(append([]string{}, other...), other...)
+		cand = append(cand, same...)
+		to := cand[sim.Uniform(t, len(cand), "rebindTarget")]
+		g.pods[pod].groups = []string{to}
+		c.Ops = append(c.Ops, Op{Type: "rebind", Pod: pod, Groups: []string{to}, Start: sim.Chance(t, 60, "startAfterRebind"), NoLimit: true})
+	}
 	for i := 0; i < n; i++ {
 		if i > 0 && sim.Chance(t, 30, "batch") {
 			focus := c.Groups[sim.Uniform(t, len(c.Groups), "focus")].Name
@@ -414,6 +442,25 @@ func (w *world) opFunc(op Op, id int, res *opResult) func() {
 	s := w.s
 	res.op = describe(op)
 	switch op.Type {
+	case "abandoned":
+		return func() {
+			pi := &podInfo{name: podName(op.Pod), ns: op.NS, groups: op.Groups, node: w.c.nodeOf(op.Groups[0]), droppedTerminal: true}
+			w.mu.Lock()
+			w.pods[op.Pod] = pi
+			w.mu.Unlock()
+			s.EnvStep("pod-left-by-abandoned-attempt", pi.ns+"/"+pi.name)
+			pod := sim.BuildPod(sim.PodShape{Name: pi.name, NS: pi.ns, Kind: "fraction", Fraction: "0.25", Containers: 1})
+			pod.Labels[constants.GPUGroup] = op.Groups[0]
+			must(s.Base.Create(ctx, pod))
+			have := false
+			for _, r := range w.s.Snapshot().Reservations {
+				have = have || r.Group == op.Groups[0]
+			}
+			if !have {
+				must(s.Base.Create(ctx, sim.BuildReservationPod(pi.node, op.Groups[0], 6)))
+			}
+			w.class("pod-left-labelled-by-abandoned-attempt")
+		}
 	case "bind", "retry", "rebind":
 		return func() {
 			pi := w.pod(op.Pod)
